@@ -18,7 +18,7 @@ wt = "/tmp/se-" + tag
 work = wt + "-work"
 env = dict(os.environ, GOFLAGS="-mod=mod", GOPROXY="off")
 def sh(cmd, **kw):
-    return subprocess.run(cmd, shell=True, text=True, stdout=subprocess.PIPE, stderr=subprocess.STDOUT, env=env, **kw)
+    return subprocess.run(cmd, shell=True, text=True, errors="replace", stdout=subprocess.PIPE, stderr=subprocess.STDOUT, env=env, **kw)
 sh("git -C /repo worktree remove --force %s; rm -rf %s %s" % (wt, wt, work))
 r = sh("git -C /repo worktree add --detach %s HEAD" % wt)
 out = {"seed_dir": sd, "repo_head": sh("git -C /repo rev-parse --short HEAD").stdout.strip()}
